@@ -62,5 +62,11 @@ var (
 var OWNER = Profile{Name: "OWNER", MinLen: 6, MaxLen: 40, PoolMin: 3, PoolMax: 6, MemSizes: []int{512, 1024, 4096},
 	W: Weights{Alu: 6, Load: 2, Store: 2, Branch: 1, Jump: 1, Behind: 4}, TakenPct: 50, ZeroRaPct: 5, MaxDyn: 2000, NoSubword: false}
 
+// PRESSUREMEM: PRESSURELOAD plus stores to the other half of memory (no memory
+// conflict arises): a store that misses keeps a write unit busy for the memory
+// latency, so register results queue up behind it while their consumers issue.
+var PRESSUREMEM = Profile{Name: "PRESSUREMEM", MinLen: 3, MaxLen: 24, PoolMin: 2, PoolMax: 4, MemSizes: midMem,
+	W: Weights{Alu: 10, Div: 1, Load: 3, Store: 3, Branch: 2, Jump: 1, Loop: 1}, TakenPct: 40, ZeroRaPct: 5, MaxDyn: 1000, SplitHalves: true, SlowBranchPct: 20}
+
 // AllProfiles lists the profiles by name.
-var AllProfiles = []Profile{REG, MEM, SHADOW, WALK, PRESSURE, SHADOWSLOW, PRESSURELOAD, CACHE, TAIL, PAIR, ERR, MEMSAFE, OWNER}
+var AllProfiles = []Profile{REG, MEM, SHADOW, WALK, PRESSURE, SHADOWSLOW, PRESSURELOAD, CACHE, TAIL, PAIR, ERR, MEMSAFE, OWNER, PRESSUREMEM}
